@@ -32,6 +32,10 @@ type NodeSpec struct {
 	Leaf bool `json:"leaf,omitempty"`
 	// InKey > 0: the node is added WithInputKey("n<InKey>"), InKey being its only data predecessor.
 	InKey int `json:"inkey,omitempty"`
+	// Atom: (workflow lambdas only) the node's INPUT type is string, not a map: its only data predecessor is a Leaf
+	// node whose output reaches it unmapped; it returns {n<id>: input}. What a checkpoint holds for it (pending input,
+	// channel value, the placeholder of a rerun) is a string / a nil value, not a map.
+	Atom bool `json:"atom,omitempty"`
 }
 
 // Edge kinds: 0 = data + control (Graph.AddEdge / Workflow AddInput),
@@ -94,6 +98,14 @@ type Case struct {
 	// SetFailAt > 0: the store's k-th Set call fails. Such a case is judged by the direct oracle only (the
 	// call must not return an interrupt: no checkpoint was written) and is not sent to the model.
 	SetFailAt int `json:"set_fail_at,omitempty"`
+	// Restart: every resume call is made on a freshly compiled runnable (same store): the process that resumes is
+	// not the process that was interrupted; nothing but the stored bytes links the two.
+	Restart bool `json:"restart,omitempty"`
+	// Retry (C05): when the driven run is over, the same compiled runnable is driven once more from the same input
+	// under another checkpoint id; one of its resume calls fails with a transient node error (nothing is written),
+	// and is then made again: it resumes from the same stored bytes. Retry-1 = which resume call fails (mod the
+	// number of resume calls of the first run).
+	Retry int `json:"retry,omitempty"`
 }
 
 // sharesLists: graph gi is handed the shared lists of c.Lists.
@@ -259,6 +271,23 @@ func (c *Case) Validate() error {
 					}
 				}
 			}
+			if n.Atom {
+				if g.Mode != "wf" || n.Sub != 0 || n.Leaf || n.InKey != 0 {
+					return fmt.Errorf("graph %d node %d: an atom node is a plain workflow lambda", gi, n.ID)
+				}
+				nd := 0
+				for _, e := range g.Edges {
+					if e.To == n.ID && e.Kind != 1 {
+						nd++
+						if p := g.node(e.From); p == nil || !p.Leaf {
+							return fmt.Errorf("graph %d node %d: the data predecessor of an atom node is a leaf node", gi, n.ID)
+						}
+					}
+				}
+				if nd != 1 {
+					return fmt.Errorf("graph %d node %d: an atom node has exactly one data predecessor", gi, n.ID)
+				}
+			}
 			if n.InKey != 0 {
 				p := g.node(n.InKey)
 				if p == nil || p.Leaf {
@@ -319,6 +348,12 @@ func canon(x any) *Val {
 		return canon(m)
 	case int:
 		return &Val{Leaf: fmt.Sprintf("%d", t)}
+	case map[string]string:
+		m := make(map[string]any, len(t))
+		for k, e := range t {
+			m[k] = e
+		}
+		return canon(m)
 	}
 	return &Val{Leaf: fmt.Sprintf("?%T", x)}
 }
